@@ -1,0 +1,200 @@
+//go:build verif
+
+// Contracts for the verification machinery in /verif (comment-only; never compiled into a binary).
+// Property C09: reclaimed (batch/mid) capacity is never over-promised.
+
+package util
+
+//@ uses pkg/util, pkg/util/sloconfig
+
+// larger of system usage and node reservation, with the key-presence semantics of quotav1.Max
+//@ spec func sysOrRes(su corev1.ResourceList, nr corev1.ResourceList, n corev1.ResourceName) real = has(su, n) && has(nr, n) ? max(val(su, n), val(nr, n)) : (has(su, n) ? val(su, n) : val(nr, n))
+
+//@ spec func cpuPolMax(s *configuration.ColocationStrategy) bool = s != nil && s.CPUCalculatePolicy != nil && deref(s.CPUCalculatePolicy) == configuration.CalculateByPodMaxUsageRequest
+//@ spec func memPolReq(s *configuration.ColocationStrategy) bool = s != nil && s.MemoryCalculatePolicy != nil && deref(s.MemoryCalculatePolicy) == configuration.CalculateByPodRequest
+//@ spec func memPolMax(s *configuration.ColocationStrategy) bool = s != nil && s.MemoryCalculatePolicy != nil && deref(s.MemoryCalculatePolicy) == configuration.CalculateByPodMaxUsageRequest
+//@ spec func cpuCapped(s *configuration.ColocationStrategy) bool = s != nil && s.BatchCPUThresholdPercent != nil
+//@ spec func memCapped(s *configuration.ColocationStrategy) bool = s != nil && s.BatchMemoryThresholdPercent != nil
+
+// The amount the property allows: max(0, cap - margin - max(sys, reserved) - hp), cut at capv when a percentage cap is configured.
+//@ spec func batchAmount(cap real, margin real, sysres real, hp real, capped bool, capv real) real = capped ? min(max0(cap - margin - sysres - hp), capv) : max0(cap - margin - sysres - hp)
+//@ spec func larger(a real, b real) real = max(a, b)
+
+// "Raising any consumption input never raises the published amount": the formula is antitone in margin, system/reserved and hp.
+//@ lemma batchAmountAntitone [C09]: forall cap real, m1 real, m2 real, s1 real, s2 real, h1 real, h2 real, capped bool, cv real :: m1 <= m2 && s1 <= s2 && h1 <= h2 ==> batchAmount(cap, m2, s2, h2, capped, cv) <= batchAmount(cap, m1, s1, h1, capped, cv)
+//@ lemma largerMonotone [C09]: forall a1 real, a2 real, b1 real, b2 real :: a1 <= a2 && b1 <= b2 ==> larger(a1, b1) <= larger(a2, b2)
+
+// The strategy handed to the calculators passed sloconfig.IsColocationStrategyValid (ConfigMap handler; node annotation
+// overlay in UpdateColocationStrategyForNode): the percentage caps are non-negative.
+//@ spec func validBatchPct(s *configuration.ColocationStrategy) bool = s != nil ==> (s.BatchCPUThresholdPercent != nil ==> deref(s.BatchCPUThresholdPercent) >= 0) && (s.BatchMemoryThresholdPercent != nil ==> deref(s.BatchMemoryThresholdPercent) >= 0)
+
+// capvC / capvM are the percentage caps as MultiplyMilliQuant / MultiplyQuant compute them: trunc(milli(cap) * pct) / 1000 and
+// trunc(ceil(cap) * pct), over the entry-state capacity.
+//@ func CalculateBatchResourceByPolicy [C09]
+//@   requires validBatchPct(strategy)
+//@   let C = corev1.ResourceCPU
+//@   let M = corev1.ResourceMemory
+//@   let hpC = cpuPolMax(strategy) ? val(podHPMaxUsedReq, C) : val(podHPUsed, C)
+//@   let hpM = memPolReq(strategy) ? val(podHPReq, M) : (memPolMax(strategy) ? val(podHPMaxUsedReq, M) : val(podHPUsed, M))
+//@   let pctC = real(deref(strategy.BatchCPUThresholdPercent)) / 100
+//@   let pctM = real(deref(strategy.BatchMemoryThresholdPercent)) / 100
+//@   let capC = old(val(nodeCapacity, C))
+//@   let capM = old(val(nodeCapacity, M))
+//@   let capvC = real(trunc(real(capC.MilliValue()) * pctC)) / 1000
+//@   let capvM = real(trunc(real(capM.Value()) * pctM))
+//@   let rawC = max0(val(nodeCapacity, C) - val(nodeSafetyMargin, C) - sysOrRes(systemUsed, nodeReserved, C) - hpC)
+//@   let rawM = max0(val(nodeCapacity, M) - val(nodeSafetyMargin, M) - sysOrRes(systemUsed, nodeReserved, M) - hpM)
+// pin the scaled capacity at the call sites (checked, then assumed): it is the spec term over the entry-state capacity
+//@   assert before call MultiplyMilliQuant: $arg0 == old(val(nodeCapacity, corev1.ResourceCPU)) && $arg1 == real(deref(strategy.BatchCPUThresholdPercent)) / 100
+//@   assert before call MultiplyQuant: $arg0 == old(val(nodeCapacity, corev1.ResourceMemory)) && $arg1 == real(deref(strategy.BatchMemoryThresholdPercent)) / 100
+//@   assert after call MultiplyQuant: $arg0 >= 0 && $arg0 == real($arg0.Value()) ==> result <= old(val(nodeCapacity, corev1.ResourceMemory)) * (real(deref(strategy.BatchMemoryThresholdPercent)) / 100)
+//@   assert after call MultiplyMilliQuant: result == real(trunc(real(old(val(nodeCapacity, corev1.ResourceCPU)).MilliValue()) * (real(deref(strategy.BatchCPUThresholdPercent)) / 100))) / 1000
+//@   assert after call MultiplyQuant: result == real(trunc(real(old(val(nodeCapacity, corev1.ResourceMemory)).Value()) * (real(deref(strategy.BatchMemoryThresholdPercent)) / 100)))
+//@   ensures #fresh: fresh(result0) && has(result0, C) && has(result0, M)
+// functional form (cpu), one clause per policy/cap combination; together: result == batchAmount(cap, margin, max(sys,res), hp(policy), capped, capv)
+//@   ensures #cpu_formula_usage: !cpuPolMax(strategy) && !cpuCapped(strategy) ==> val(result0, C) == max0(val(nodeCapacity, C) - val(nodeSafetyMargin, C) - sysOrRes(systemUsed, nodeReserved, C) - val(podHPUsed, C))
+//@   ensures #cpu_formula_max: cpuPolMax(strategy) && !cpuCapped(strategy) ==> val(result0, C) == max0(val(nodeCapacity, C) - val(nodeSafetyMargin, C) - sysOrRes(systemUsed, nodeReserved, C) - val(podHPMaxUsedReq, C))
+//@   ensures #cpu_formula_usage_cap: !cpuPolMax(strategy) && cpuCapped(strategy) ==> val(result0, C) == min(max0(val(nodeCapacity, C) - val(nodeSafetyMargin, C) - sysOrRes(systemUsed, nodeReserved, C) - val(podHPUsed, C)), capvC)
+//@   ensures #cpu_formula_max_cap: cpuPolMax(strategy) && cpuCapped(strategy) ==> val(result0, C) == min(max0(val(nodeCapacity, C) - val(nodeSafetyMargin, C) - sysOrRes(systemUsed, nodeReserved, C) - val(podHPMaxUsedReq, C)), capvC)
+// the bounds named by the property (cpu)
+//@   ensures #cpu_nonneg: capC >= 0 ==> val(result0, C) >= 0
+//@   ensures #cpu_le_bound_usage: !cpuPolMax(strategy) ==> val(result0, C) <= rawC
+//@   ensures #cpu_le_bound_max: cpuPolMax(strategy) ==> val(result0, C) <= rawC
+// percentage cap, in published units (milli-cores) ...
+//@   ensures #cpu_le_pct_milli: cpuCapped(strategy) && capC >= 0 ==> 1000 * val(result0, C) <= real(capC.MilliValue()) * pctC
+// ... and exactly, for a capacity that is a whole number of milli-cores (what kubelet / koordlet report)
+//@   ensures #cpu_le_pct: cpuCapped(strategy) && capC >= 0 && 1000 * capC == real(capC.MilliValue()) ==> val(result0, C) <= capC * pctC
+// functional form (memory)
+//@   ensures #mem_formula_usage: !memPolReq(strategy) && !memPolMax(strategy) && !memCapped(strategy) ==> val(result0, M) == max0(val(nodeCapacity, M) - val(nodeSafetyMargin, M) - sysOrRes(systemUsed, nodeReserved, M) - val(podHPUsed, M))
+//@   ensures #mem_formula_max: memPolMax(strategy) && !memCapped(strategy) ==> val(result0, M) == max0(val(nodeCapacity, M) - val(nodeSafetyMargin, M) - sysOrRes(systemUsed, nodeReserved, M) - val(podHPMaxUsedReq, M))
+//@   ensures #mem_formula_usage_cap: !memPolReq(strategy) && !memPolMax(strategy) && memCapped(strategy) ==> val(result0, M) == min(max0(val(nodeCapacity, M) - val(nodeSafetyMargin, M) - sysOrRes(systemUsed, nodeReserved, M) - val(podHPUsed, M)), capvM)
+//@   ensures #mem_formula_max_cap: memPolMax(strategy) && memCapped(strategy) ==> val(result0, M) == min(max0(val(nodeCapacity, M) - val(nodeSafetyMargin, M) - sysOrRes(systemUsed, nodeReserved, M) - val(podHPMaxUsedReq, M)), capvM)
+// what the code computes under memory policy "request": only the reservation is subtracted, not max(system usage, reservation)
+//@   ensures #mem_request_ascoded: memPolReq(strategy) && !memCapped(strategy) ==> val(result0, M) == max0(val(nodeCapacity, M) - val(nodeSafetyMargin, M) - val(nodeReserved, M) - val(podHPReq, M))
+//@   ensures #mem_request_ascoded_cap: memPolReq(strategy) && memCapped(strategy) ==> val(result0, M) == min(max0(val(nodeCapacity, M) - val(nodeSafetyMargin, M) - val(nodeReserved, M) - val(podHPReq, M)), capvM)
+// the bounds named by the property (memory)
+//@   ensures #mem_nonneg: capM >= 0 ==> val(result0, M) >= 0
+//@   ensures #mem_le_bound_usage: !memPolReq(strategy) && !memPolMax(strategy) ==> val(result0, M) <= rawM
+//@   ensures #mem_le_bound_max: memPolMax(strategy) ==> val(result0, M) <= rawM
+// KNOWN FINDING (kept failing, documented as intended in the code): under memory policy "request" system usage above the
+// reservation is not subtracted, so the bound of the property does not hold.
+//@   ensures #mem_le_bound_request: memPolReq(strategy) ==> val(result0, M) <= rawM
+//@   ensures #mem_le_pct_bytes: memCapped(strategy) && capM >= 0 ==> val(result0, M) <= real(capM.Value()) * pctM
+//@   ensures #mem_le_pct: memCapped(strategy) && capM >= 0 && capM == real(capM.Value()) ==> val(result0, M) <= capM * pctM
+//@   modifies nothing
+
+// ---- mid tier ----
+
+// The configured percentage (as a ratio), falling back to the default strategy when the strategy or the field is unset.
+//@ spec func pick(s *configuration.ColocationStrategy, own *int64, dflt *int64) real = (s == nil || own == nil) ? real(deref(dflt)) / 100 : real(deref(own)) / 100
+//@ func getPercentFromStrategy [C09]
+//@   requires defaultStrategy != nil && defaultStrategy.MidCPUThresholdPercent != nil && defaultStrategy.MidMemoryThresholdPercent != nil && defaultStrategy.MidUnallocatedPercent != nil && defaultStrategy.MidStaticCPUReservedPercent != nil && defaultStrategy.MidStaticMemoryReservedPercent != nil
+//@   ensures #cpu_threshold: strategyType == MidCPUThreshold ==> result == pick(strategy, strategy.MidCPUThresholdPercent, defaultStrategy.MidCPUThresholdPercent)
+//@   ensures #mem_threshold: strategyType == MidMemoryThreshold ==> result == pick(strategy, strategy.MidMemoryThresholdPercent, defaultStrategy.MidMemoryThresholdPercent)
+//@   ensures #unallocated: strategyType == MidUnallocatedPercent ==> result == pick(strategy, strategy.MidUnallocatedPercent, defaultStrategy.MidUnallocatedPercent)
+//@   ensures #static_cpu: strategyType == MidStaticCPUReservedPercent ==> result == pick(strategy, strategy.MidStaticCPUReservedPercent, defaultStrategy.MidStaticCPUReservedPercent)
+//@   ensures #static_mem: strategyType == MidStaticMemoryReservedPercent ==> result == pick(strategy, strategy.MidStaticMemoryReservedPercent, defaultStrategy.MidStaticMemoryReservedPercent)
+//@   ensures #other: strategyType != MidCPUThreshold && strategyType != MidMemoryThreshold && strategyType != MidUnallocatedPercent && strategyType != MidStaticCPUReservedPercent && strategyType != MidStaticMemoryReservedPercent ==> result == 0
+//@   modifies nothing
+
+//@ spec func ownSC(s *configuration.ColocationStrategy) bool = s != nil && s.MidStaticCPUReservedPercent != nil
+//@ spec func ownSM(s *configuration.ColocationStrategy) bool = s != nil && s.MidStaticMemoryReservedPercent != nil
+//@ spec func ownTC(s *configuration.ColocationStrategy) bool = s != nil && s.MidCPUThresholdPercent != nil
+//@ spec func ownTM(s *configuration.ColocationStrategy) bool = s != nil && s.MidMemoryThresholdPercent != nil
+//@ spec func ownUP(s *configuration.ColocationStrategy) bool = s != nil && s.MidUnallocatedPercent != nil
+
+// Static mode: mid = min(cap * staticReservedPercent, cap * thresholdPercent), cpu in milli-cores, memory in bytes, each product
+// truncated. Defaults (sloconfig.DefaultColocationStrategy): static percent 0, threshold percent 100.
+//@ func CalculateMidResourceByStaticMode [C09]
+//@   let C = corev1.ResourceCPU
+//@   let M = corev1.ResourceMemory
+//@   let capMilli = real(val(nodeCapacity, C).MilliValue())
+//@   let capBytes = real(val(nodeCapacity, M).Value())
+//@   let sC = real(deref(strategy.MidStaticCPUReservedPercent)) / 100
+//@   let sM = real(deref(strategy.MidStaticMemoryReservedPercent)) / 100
+//@   let tC = real(deref(strategy.MidCPUThresholdPercent)) / 100
+//@   let tM = real(deref(strategy.MidMemoryThresholdPercent)) / 100
+//@   ensures #cpu_formula_st: ownSC(strategy) && ownTC(strategy) ==> deref(result0) == real(min(trunc(capMilli * sC), trunc(capMilli * tC)))
+//@   ensures #cpu_formula_s: ownSC(strategy) && !ownTC(strategy) ==> deref(result0) == min(real(trunc(capMilli * sC)), capMilli)
+//@   ensures #cpu_formula_t: !ownSC(strategy) && ownTC(strategy) ==> deref(result0) == real(min(0, trunc(capMilli * tC)))
+//@   ensures #cpu_formula_dflt: !ownSC(strategy) && !ownTC(strategy) ==> deref(result0) == min(0, capMilli)
+//@   ensures #mem_formula_st: ownSM(strategy) && ownTM(strategy) ==> deref(result1) == real(min(trunc(capBytes * sM), trunc(capBytes * tM)))
+//@   ensures #mem_formula_s: ownSM(strategy) && !ownTM(strategy) ==> deref(result1) == min(real(trunc(capBytes * sM)), capBytes)
+//@   ensures #mem_formula_t: !ownSM(strategy) && ownTM(strategy) ==> deref(result1) == real(min(0, trunc(capBytes * tM)))
+//@   ensures #mem_formula_dflt: !ownSM(strategy) && !ownTM(strategy) ==> deref(result1) == min(0, capBytes)
+// bounds: never negative, never above cap * static percent, never above cap * threshold percent (valid configuration: percents >= 0)
+//@   ensures #cpu_nonneg: val(nodeCapacity, C) >= 0 && (ownSC(strategy) ==> sC >= 0) && (ownTC(strategy) ==> tC >= 0) ==> deref(result0) >= 0
+//@   ensures #cpu_le_static: val(nodeCapacity, C) >= 0 && ownSC(strategy) && sC >= 0 ==> deref(result0) <= capMilli * sC
+//@   ensures #cpu_le_static_dflt: !ownSC(strategy) ==> deref(result0) <= 0
+//@   ensures #cpu_le_threshold: val(nodeCapacity, C) >= 0 && (ownSC(strategy) ==> sC >= 0) && ownTC(strategy) && tC >= 0 ==> deref(result0) <= capMilli * tC
+//@   ensures #cpu_le_threshold_dflt: val(nodeCapacity, C) >= 0 && (ownSC(strategy) ==> sC >= 0) && !ownTC(strategy) ==> deref(result0) <= capMilli
+//@   ensures #mem_nonneg: val(nodeCapacity, M) >= 0 && (ownSM(strategy) ==> sM >= 0) && (ownTM(strategy) ==> tM >= 0) ==> deref(result1) >= 0
+//@   ensures #mem_le_static: val(nodeCapacity, M) >= 0 && ownSM(strategy) && sM >= 0 ==> deref(result1) <= capBytes * sM
+//@   ensures #mem_le_static_dflt: !ownSM(strategy) ==> deref(result1) <= 0
+//@   ensures #mem_le_threshold: val(nodeCapacity, M) >= 0 && (ownSM(strategy) ==> sM >= 0) && ownTM(strategy) && tM >= 0 ==> deref(result1) <= capBytes * tM
+//@   ensures #mem_le_threshold_dflt: val(nodeCapacity, M) >= 0 && (ownSM(strategy) ==> sM >= 0) && !ownTM(strategy) ==> deref(result1) <= capBytes
+//@   modifies nothing
+
+// Dynamic mode: mid = min( max(0, min(prodReclaimable, nodeUnused)) + trunc(unallocated * unallocatedPercent), trunc(cap * thresholdPercent) ),
+// cpu in milli-cores, memory in bytes. Defaults: unallocated percent 0, threshold percent 100.
+//@ func CalculateMidResourceByPolicy [C09]
+//@   let C = corev1.ResourceCPU
+//@   let M = corev1.ResourceMemory
+//@   let capMilli = real(val(nodeCapacity, C).MilliValue())
+//@   let capBytes = real(val(nodeCapacity, M).Value())
+//@   let unusedMilli = val(nodeUnused, C).MilliValue()
+//@   let unusedBytes = val(nodeUnused, M).Value()
+//@   let unallocMilli = real(val(unallocated, C).MilliValue())
+//@   let unallocBytes = real(val(unallocated, M).Value())
+//@   let uP = real(deref(strategy.MidUnallocatedPercent)) / 100
+//@   let tC = real(deref(strategy.MidCPUThresholdPercent)) / 100
+//@   let tM = real(deref(strategy.MidMemoryThresholdPercent)) / 100
+//@   let baseC = max0(min(allocatableMilliCPU, unusedMilli))
+//@   let baseM = max0(min(allocatableMemory, unusedBytes))
+// pin the defaulted ratios at the call sites (checked, then assumed)
+//@   assert after call getPercentFromStrategy: ($arg2 == MidUnallocatedPercent && !ownUP(strategy) ==> result == 0) && ($arg2 == MidCPUThreshold && !ownTC(strategy) ==> result == 1) && ($arg2 == MidMemoryThreshold && !ownTM(strategy) ==> result == 1)
+//@   assert before call NewQuantity#5: ownUP(strategy) ==> $arg0 == trunc(real(val(unallocated, corev1.ResourceMemory).Value()) * (real(deref(strategy.MidUnallocatedPercent)) / 100))
+// functional form, one clause per combination of configured / defaulted percentages
+//@   ensures #cpu_formula_ut: ownUP(strategy) && ownTC(strategy) ==> deref(result0) == real(min(baseC + trunc(unallocMilli * uP), trunc(capMilli * tC)))
+//@   ensures #cpu_formula_u: ownUP(strategy) && !ownTC(strategy) ==> deref(result0) == min(real(baseC + trunc(unallocMilli * uP)), capMilli)
+//@   ensures #cpu_formula_t: !ownUP(strategy) && ownTC(strategy) ==> deref(result0) == real(min(baseC, trunc(capMilli * tC)))
+//@   ensures #cpu_formula_dflt: !ownUP(strategy) && !ownTC(strategy) ==> deref(result0) == min(real(baseC), capMilli)
+//@   ensures #mem_formula_ut: ownUP(strategy) && ownTM(strategy) ==> deref(result1) == real(min(baseM + trunc(unallocBytes * uP), trunc(capBytes * tM)))
+//@   ensures #mem_formula_u: ownUP(strategy) && !ownTM(strategy) ==> deref(result1) == min(real(baseM + trunc(unallocBytes * uP)), capBytes)
+//@   ensures #mem_formula_t: !ownUP(strategy) && ownTM(strategy) ==> deref(result1) == real(min(baseM, trunc(capBytes * tM)))
+//@   ensures #mem_formula_dflt: !ownUP(strategy) && !ownTM(strategy) ==> deref(result1) == min(real(baseM), capBytes)
+// bounds (valid configuration: percents >= 0; capacity and unallocated are non-negative quantities)
+//@   ensures #cpu_nonneg_ut: val(nodeCapacity, C) >= 0 && val(unallocated, C) >= 0 && ownUP(strategy) && uP >= 0 && ownTC(strategy) && tC >= 0 ==> deref(result0) >= 0
+//@   ensures #cpu_nonneg_u: val(nodeCapacity, C) >= 0 && val(unallocated, C) >= 0 && ownUP(strategy) && uP >= 0 && !ownTC(strategy) ==> deref(result0) >= 0
+//@   ensures #cpu_nonneg_t: val(nodeCapacity, C) >= 0 && !ownUP(strategy) && ownTC(strategy) && tC >= 0 ==> deref(result0) >= 0
+//@   ensures #cpu_nonneg_dflt: val(nodeCapacity, C) >= 0 && !ownUP(strategy) && !ownTC(strategy) ==> deref(result0) >= 0
+//@   ensures #cpu_le_threshold: val(nodeCapacity, C) >= 0 && ownTC(strategy) && tC >= 0 ==> deref(result0) <= capMilli * tC
+//@   ensures #cpu_le_threshold_dflt: !ownTC(strategy) ==> deref(result0) <= capMilli
+//@   ensures #cpu_le_reclaim: val(unallocated, C) >= 0 && ownUP(strategy) && uP >= 0 ==> deref(result0) <= real(baseC) + unallocMilli * uP
+//@   ensures #cpu_le_reclaim_dflt: !ownUP(strategy) ==> deref(result0) <= real(baseC)
+//@   ensures #mem_nonneg_ut: val(nodeCapacity, M) >= 0 && val(unallocated, M) >= 0 && ownUP(strategy) && uP >= 0 && ownTM(strategy) && tM >= 0 ==> deref(result1) >= 0
+//@   ensures #mem_nonneg_u: val(nodeCapacity, M) >= 0 && val(unallocated, M) >= 0 && ownUP(strategy) && uP >= 0 && !ownTM(strategy) ==> deref(result1) >= 0
+//@   ensures #mem_nonneg_t: val(nodeCapacity, M) >= 0 && !ownUP(strategy) && ownTM(strategy) && tM >= 0 ==> deref(result1) >= 0
+//@   ensures #mem_nonneg_dflt: val(nodeCapacity, M) >= 0 && !ownUP(strategy) && !ownTM(strategy) ==> deref(result1) >= 0
+//@   ensures #mem_le_threshold: val(nodeCapacity, M) >= 0 && ownTM(strategy) && tM >= 0 ==> deref(result1) <= capBytes * tM
+//@   ensures #mem_le_threshold_dflt: !ownTM(strategy) ==> deref(result1) <= capBytes
+//@   ensures #mem_le_reclaim: val(unallocated, M) >= 0 && ownUP(strategy) && uP >= 0 ==> deref(result1) <= real(baseM) + unallocBytes * uP
+//@   ensures #mem_le_reclaim_dflt: !ownUP(strategy) ==> deref(result1) <= real(baseM)
+//@   modifies nothing
+
+// ---- publishing on the Node object ----
+// A Reset (degraded / stale metrics) or a missing quantity WITHDRAWS the extended resource from the node status; the old value
+// never survives. Otherwise the (rounded-up) quantity is written to both capacity and allocatable. Other resources are untouched.
+//@ func PrepareNodeForResource [C09]
+//@   requires node != nil && nr != nil && node.Status.Capacity != nil && node.Status.Allocatable != nil && node.Status.Capacity != node.Status.Allocatable
+//@   let withdrawn = val(nr.Resources, name) == nil || val(nr.Resets, name)
+//@   ensures #withdraw: old(withdrawn) ==> !has(node.Status.Capacity, name) && !has(node.Status.Allocatable, name)
+//@   ensures #publish: !old(withdrawn) ==> has(node.Status.Capacity, name) && has(node.Status.Allocatable, name) && val(node.Status.Capacity, name) == val(node.Status.Allocatable, name)
+//@   ensures #others: forall n corev1.ResourceName :: n != name ==> has(node.Status.Capacity, n) == old(has(node.Status.Capacity, n)) && val(node.Status.Capacity, n) == old(val(node.Status.Capacity, n)) && has(node.Status.Allocatable, n) == old(has(node.Status.Allocatable, n)) && val(node.Status.Allocatable, n) == old(val(node.Status.Allocatable, n))
+
+// cpu entry of the first list, memory entry of the second (absent entries count as zero); a new list, nothing else is written.
+//@ func MixResourceListCPUAndMemory [C09]
+//@   ensures #fresh: fresh(result)
+//@   ensures #keys: forall n corev1.ResourceName :: {has(result, n)} has(result, n) <==> (n == corev1.ResourceCPU || n == corev1.ResourceMemory)
+//@   ensures #vals: forall n corev1.ResourceName :: {val(result, n)} val(result, n) == (n == corev1.ResourceCPU ? val(resourcesForCPU, n) : (n == corev1.ResourceMemory ? val(resourcesForMemory, n) : 0))
+//@   modifies nothing
